@@ -1271,7 +1271,16 @@ func sameBase(a, b ssa.Value) bool {
 	if a == b {
 		return true
 	}
-	// two FreeVar/Alloc references to the same variable are the same SSA value inside one function
+	// two FreeVar/Alloc references to the same variable are the same SSA value inside one function;
+	// a pointer-typed group variable is re-read before every access
+	la, ok1 := isLoad(a)
+	lb, ok2 := isLoad(b)
+	if ok1 && ok2 {
+		switch la.X.(type) {
+		case *ssa.Alloc, *ssa.FreeVar:
+			return la.X == lb.X
+		}
+	}
 	return false
 }
 
